@@ -19,6 +19,10 @@ pub enum Node {
     DivIntPow(u64, usize),
     /// from_bits(word)
     Bits(u64),
+    /// -from_bits(word)
+    NegBits(u64),
+    /// -from_u64(u)
+    NegInt(u64),
     /// anything else the generic code might compute (never expected)
     Other,
 }
@@ -33,7 +37,16 @@ macro_rules! spy_float {
         impl ops::SubAssign for $spy { fn sub_assign(&mut self, _: Self) { self.0 = Node::Other } }
         impl ops::Rem for $spy { type Output = Self; fn rem(self, _: Self) -> Self { $spy(Node::Other) } }
         impl ops::RemAssign for $spy { fn rem_assign(&mut self, _: Self) { self.0 = Node::Other } }
-        impl ops::Neg for $spy { type Output = Self; fn neg(self) -> Self { $spy(Node::Other) } }
+        impl ops::Neg for $spy {
+            type Output = Self;
+            fn neg(self) -> Self {
+                match self.0 {
+                    Node::Bits(u) => $spy(Node::NegBits(u)),
+                    Node::Int(u) => $spy(Node::NegInt(u)),
+                    _ => $spy(Node::Other),
+                }
+            }
+        }
         impl ops::MulAssign for $spy { fn mul_assign(&mut self, _: Self) { self.0 = Node::Other } }
         impl ops::DivAssign for $spy { fn div_assign(&mut self, _: Self) { self.0 = Node::Other } }
         impl ops::Mul for $spy {
